@@ -2,12 +2,14 @@ use crate::core::Property;
 
 pub mod c01;
 pub mod c02;
+pub mod c05;
 pub mod c09;
+pub mod c16;
 pub mod c18;
 pub mod c20;
 
 pub fn all() -> Vec<&'static dyn Property> {
-    vec![&c01::C01, &c02::C02, &c09::C09, &c18::C18, &c20::C20]
+    vec![&c01::C01, &c02::C02, &c05::C05, &c09::C09, &c16::C16, &c18::C18, &c20::C20]
 }
 
 pub fn lookup(id: &str) -> Option<&'static dyn Property> {
